@@ -23,6 +23,16 @@ theorem C06_kinds :
     generatedKinds.allLocal = true ∧ Generated.storageCells.all (·.2) = true ∧
     Generated.storageCells.length = 3 := by decide
 
+/-- outside `_storage.py` the package holds no process-wide mutable state but what is listed here: construction-time
+    caches of annotation classes (`lru_cache` on `_make_array_cached` / `PyTree.__getitem__` / the module `__getattr__`),
+    the constant dtype-name tables, the typechecker table of the import hook, and two flags written once. None of them
+    is read or written by `isinstance` / by the wrappers while a check is in progress; a new entry (a scratch dictionary
+    shared by all threads, a verdict cache, a registry) is a new channel between threads, calls and checks and makes this
+    theorem fail -/
+theorem C06_no_other_shared_state :
+    Generated.processGlobalState = knownGlobalState := by
+  decide
+
 /-- **isolation under every interleaving**: with thread-local cells, for every family of thread
     programs (any number of threads, any steps), every initial world and EVERY schedule, what a
     thread observes — its cells, its position, its transcript of verdicts and bindings — is what it
